@@ -1,6 +1,7 @@
 package props
 
 import (
+	"astverif/errflow"
 	"fmt"
 	"math/big"
 	"sort"
@@ -36,6 +37,8 @@ func c15(c *Ctx) {
 	decodeDate(c)
 	encodeDate(c)
 	bcd(c)
+	// "yields exactly those five bytes": a failed write of one of them must be reported (batch latch consumed, rule E1 of C18)
+	errflow.E1(c.P, r)
 	r.Floor("G", "obligations", len(r.Obls), 30)
 }
 
